@@ -58,7 +58,7 @@ CHECKS = {
  "C14": dict(text="Theorems for every importability/constructor oracle: location kept, string text kept, instance arrives as same class or generic warning carrying class name and text, category kept when "
              "rebuildable; refutation for the bare function (hence the fallback, fix 9a94612). Tied to the real serialize/unserialize functions and the real process_from_remote on generated warning kinds.",
              design="5/C14", technique=TECH),
- "C15": dict(text=SYS + "Proved (all states): mark_test_pending puts the index at the FRONT of the pool and adds exactly one index; SYSTEM level (RequeueCount.v, load, arbitrary crashes, any number of re-queues): every test is started at most 1 + (times re-queued) times, with the exact account at a finished end; (SystemCorollariesRequeue.v, load and worksteal) the re-queued index is at the front of the pool or handed out first in the same step; monitors check hook-before-publication and dispatch-first on the implementation.",
+ "C15": dict(text=SYS + "Proved (all states): mark_test_pending puts the index at the FRONT of the pool and adds exactly one index; SYSTEM level (RequeueCount.v, RequeueCountSteal.v; load and worksteal, arbitrary crashes, any number of re-queues): every test is started at most 1 + (times re-queued) times, with the exact account at a finished end; (SystemCorollariesRequeue.v, load and worksteal) the re-queued index is at the front of the pool or handed out first in the same step; monitors check hook-before-publication and dispatch-first on the implementation.",
              design="5/C15", technique=TECH),
  "C16": dict(text=SYS + CTL + "Proved for EVERY event sequence: at most one shutdown command per worker, never a second; every scheduler operation except the initial schedule sends no work to a flagged node "
              "(the initial schedule under 'no node flagged yet'); steal requests name only booked tests; indices stay valid.", design="5/C16", technique=TECH),
